@@ -76,3 +76,44 @@ package plush
 //@ ensures badre: op == "~=" && !reOK(sprint(r)) ==> err != nil
 //@ ensures other: op != "+" && op != "<" && op != ">" && op != "<=" && op != ">=" && op != "==" && op != "!=" && op != "~=" ==> err != nil
 //@ assigns nothing
+
+// ---- C10: Context is a chain of scopes --------------------------------------------
+
+// Allocation order is the well-founded measure: an outer context is always older than its child.
+//@ typeinv (c *Context) = c.data != nil && c.moot != nil && c.Context != nil && (c.outer != nil ==> c.outer < c)
+
+//@ heapspec view(c *Context, k any) any = ite(is(k, "string") && has(c.data, unbox(k, "string")), c.data[unbox(k, "string")],
+//@     ite(is(k, "string") && c.outer != nil, view(c.outer, box(unbox(k, "string"))), ctxval(c.Context, k)))
+
+//@ func (c *Context) Value
+//@ ensures def: result == view(c, key)
+//@ assigns nothing
+//@ decreases c
+
+//@ func (c *Context) Has
+//@ ensures def: result == (view(c, box(key)) != nil)
+//@ assigns nothing
+
+//@ func (c *Context) Set
+//@ ensures put: has(c.data, key) && c.data[key] == value
+//@ ensures rest: forall k string :: k != key ==> has(c.data, k) == old(has(c.data, k)) && c.data[k] == old(c.data[k])
+//@ assigns contents(c.data)
+
+//@ func NewContextWithOuter
+//@ requires data != nil && out != nil
+//@ ensures shape: fresh(result) && result.outer == out && result.data == data
+//@ ensures keep: forall k string :: old(has(data, k)) && old(data[k]) != nil ==> has(data, k) && data[k] == old(data[k])
+//@ assigns contents(data), fresh
+//@ loop 1: invariant keep: forall k string :: old(has(data, k)) && old(data[k]) != nil ==> has(data, k) && data[k] == old(data[k])
+
+//@ func NewContextWith
+//@ requires data != nil
+//@ ensures shape: fresh(result) && result.outer == nil && result.data == data
+//@ ensures keep: forall k string :: old(has(data, k)) && old(data[k]) != nil ==> has(data, k) && data[k] == old(data[k])
+//@ assigns contents(data), fresh
+//@ loop 1: invariant keep: forall k string :: old(has(data, k)) && old(data[k]) != nil ==> has(data, k) && data[k] == old(data[k])
+
+//@ func (c *Context) New
+//@ ensures shape: is(result, "*Context") && fresh(unbox(result, "*Context")) && unbox(result, "*Context").outer == c
+//@ ensures ownmap: fresh(unbox(result, "*Context").data)
+//@ assigns fresh
